@@ -607,3 +607,15 @@ PROPS["C18"]["level_text"] += (
     "twice) and compared frame by frame with the static load; suite stream (shared with C09): scripted decoders that run AHEAD of "
     "the playback, long sounds, seek_to / seek_by at any lead up to the full ring, with the oracle "
     "stream_frames_not_loaded_frames_at_position stating the clause on the real code")
+# C06 ("a tween on a sound's parameter … progresses in real time"): at the level of the sound the clause is about WHERE
+# StaticSound::process updates its volume / playback-rate / panning parameters (before the early returns for a start time
+# not reached and for a non-advancing playback state). Suite static (shared with C03 / C04) drives real static sounds
+# through pause / resume / delayed starts with parameter tweens set in every state; the oracle
+# static_param_tween_not_in_real_time compares each output frame of a unit DC sound with reference kira::Parameters that
+# received the same commands and the real time of EVERY callback.
+PROPS["C06"]["suites"] += [{"name": "static", "quick": 800, "thorough": 15000}]
+PROPS["C06"]["level_text"] += (
+    "; AT THE LEVEL OF THE SOUND (suite static, bit-exact twin of the whole static sound + oracle "
+    "static_param_tween_not_in_real_time): a static sound's volume / panning tweens advance with the real time of every "
+    "callback - playing, fading, paused, waiting to resume, waiting for a delayed start - so that after a resume the value is "
+    "where the closed form says")
